@@ -992,6 +992,7 @@ namespace T
    };
    inline Log L;
    inline uint8_t top_A = 1;  // apply mode requested at the parse() call (1 = action)
+   inline bool monitor_frames = true;  // false when the run uses a control without the monitor (coverage<>): action frame checks are skipped
    inline bool monitor_apply_mode = true;  // off where enable_action / disable_action attachments change the mode outside the rule structure
 
    // position oracle (the C06 formula): a function of the consumed prefix and the initial counters only
@@ -1260,7 +1261,13 @@ namespace T
       const int e = int( L.frames.empty() ? -1 : 0 );
       (void)e;
       int b = -1, en = -1;
-      if( L.frames.empty() || L.frames.back().rule != I ) {
+      if( !monitor_frames ) {
+         if( ai ) {
+            b = int( ai->begin() - g_begin );
+            en = int( ai->end() - g_begin );
+         }
+      }
+      else if( L.frames.empty() || L.frames.back().rule != I ) {
          ++L.c04;
          L.c04_msg = "action of n" + std::to_string( I ) + " invoked outside an attempt of that rule";
       }
